@@ -20,3 +20,14 @@ Theorem C12_round_robin : forall c, chans c <> [] ->
   Permutation (snd (rc_picks (length (chans c)) c)) (map Some (rc_all c)).
 Proof. exact round_robin. Qed.
 Print Assumptions C12_round_robin.
+
+(* the two-level registry after every history of tunnels opening (any, colliding or nil keys),
+   closing and RPC routing: AllReverseTunnels / AsChannel see exactly the open tunnels, and
+   KeyAsChannel(k) exactly those whose key is k; Ready(k) iff that set is non-empty *)
+Theorem C12_registry_matches_open_tunnels : forall ops, wf_history [] ops ->
+  let r := fold_left reg_apply ops reg_new in
+  let o := fold_left open_apply ops [] in
+  rc_all (glob r) = map fst o /\
+  forall k, reg_key_all r k = map fst (keyed k o) /\ (reg_key_ready r k = true <-> keyed k o <> []).
+Proof. exact registry_matches_open_tunnels. Qed.
+Print Assumptions C12_registry_matches_open_tunnels.
